@@ -2,7 +2,9 @@
 
 Fault seams: (a) the data source (a sequence whose element and slice reads raise
 for chosen indices), (b) an operator whose function raises on poison rows
-(apply / assign / filter), (c) a sink whose write raises.  Failure positions
+(apply / assign / filter), (c) a sink whose write raises, (d) malformed records
+(a list where a dict is expected: TypeError during input selection, skippable;
+a dict without the selected key: KeyError, not skippable).  Failure positions
 are drawn over all positions; 1-4 failures per run; skipping on and off;
 with and without function re-batching; num_threads 0..2.
 """
@@ -17,7 +19,7 @@ from scenarios import common
 from scenarios import pipes
 from scenarios.common import v
 
-SITES = ('source', 'source', 'apply', 'assign', 'filter', 'sink')
+SITES = ('source', 'source', 'apply', 'assign', 'filter', 'sink', 'malformed')
 ERRS = {'ValueError': ValueError, 'TypeError': TypeError, 'KeyError': KeyError,
         'RuntimeError': RuntimeError}
 SKIPPABLE = ('ValueError', 'TypeError')
@@ -118,7 +120,12 @@ class SkipFamily(common.Family):
     poison = sorted({rng.randrange(n) for _ in range(npoison)})
     err = rng.choice(['ValueError', 'ValueError', 'TypeError', 'KeyError',
                       'RuntimeError'])
+    mal_op = ''
+    if site == 'malformed':
+      mal_op = rng.choice(['apply', 'assign', 'filter', 'sink'])
+      err = rng.choice(['TypeError', 'TypeError', 'KeyError'])
     return {
+        'mal_op': mal_op,
         'n': n, 'rows': rows, 'salt': rng.randrange(1, 10), 'site': site,
         'poison': poison, 'err': err, 'ignore': rng.random() < 0.7,
         # source-level skipping is configured on the data source itself
@@ -137,7 +144,7 @@ class SkipFamily(common.Family):
     t = t.data_source(data_source)
     if cfg['pre']:
       t = t.assign('y', fn=pipes.f_double_plus, input_keys='x')
-    site = cfg['site']
+    site = cfg.get('mal_op') or cfg['site']
     kw = {}
     if cfg['fbs']:
       kw = {'fn_batch_size': cfg['fbs'], 'batch_size': cfg['bs']}
@@ -177,6 +184,16 @@ class SkipFamily(common.Family):
       src = FaultyList(list(data), cfg['poison'], cfg['err'])
       ds = io.SequenceDataSource(src, ignore_error=cfg['src_ignore'])
       _POISON.update(ids=frozenset(), err=cfg['err'], fired=[])
+    elif site == 'malformed':
+      src = None
+      bad = list(data)
+      for i in cfg['poison']:
+        if cfg['err'] == 'TypeError':
+          bad[i] = ['poison', i]          # list['id'] -> TypeError
+        else:
+          bad[i] = {k: v_ for k, v_ in data[i].items() if k != 'id'}
+      ds = io.SequenceDataSource(bad)
+      _POISON.update(ids=frozenset(), err=cfg['err'], fired=[])
     else:
       src = None
       ds = io.SequenceDataSource(list(data))
@@ -194,6 +211,8 @@ class SkipFamily(common.Family):
     if cfg['agg'] and end == ['stop']:
       res = pipes.norm_result(it.agg_result)
     fired = list(src.fired) if src is not None else list(_POISON['fired'])
+    if site == 'malformed':
+      fired = list(cfg['poison'])
     sim.count('fault:injected_error', len(fired))
     _POISON.update(ids=frozenset(), fired=[])
     return {'ref_rows': ref_rows, 'got': got, 'end': end, 'res': res,
@@ -235,7 +254,7 @@ class SkipFamily(common.Family):
     obs = out['value']
     res = []
     rows = cfg['rows']
-    skippable = cfg['err'] in SKIPPABLE or site != 'source'
+    skippable = cfg['err'] in SKIPPABLE or site not in ('source', 'malformed')
     ref_rows = obs['ref_rows']
     got_rows = [r for b in obs['got'] for r in b]
     elem_of = lambda r: dict(r)['id'] // rows
@@ -272,7 +291,11 @@ class SkipFamily(common.Family):
                          f"{obs['res']} != stats of delivered rows {st.result()}"))
     else:
       msgs = obs['end'][1] if obs['end'] and obs['end'][0] == 'exc' else []
-      injected = any(f"{cfg['err']}:" in m and 'poison' in m for m in msgs)
+      if site == 'malformed':
+        pat = 'list indices' if cfg['err'] == 'TypeError' else "'id'"
+        injected = any(m.startswith(cfg['err'] + ':') and pat in m for m in msgs)
+      else:
+        injected = any(f"{cfg['err']}:" in m and 'poison' in m for m in msgs)
       if obs['end'] == ['stop']:
         res.append(v('surface', f'error-swallowed:{tag}',
                      f"error skipping is {'on' if ignore else 'off'} and "
@@ -284,7 +307,7 @@ class SkipFamily(common.Family):
       extra = common.multiset(got_rows) - common.multiset(ref_rows)
       if extra:
         res.append(v('surface', f'extra:{tag}', f'{dict(extra)}'))
-    if site == 'sink' and not obs['sink']['closed']:
+    if (cfg.get('mal_op') or site) == 'sink' and not obs['sink']['closed']:
       res.append(v('sink', f'not-closed:{tag}', f"{obs['sink']}"))
     left = common.leftover_repo_threads(out)
     if left:
